@@ -512,7 +512,10 @@ def run():
                 sk = g.pick([x for x in c10_gen.SITES if x not in ("join-cond", "take")])     # `take <column>` is a type error whatever the column
                 cases.append({"stream": "edit-b-ambiguous-name", "src": p.text(upto=k, extra=["select {%s.%s, %s.%s}" % (a_.name, n, b_.name, n), c10_gen.SITES[sk] % n]),
                               "kind": "edit", "pi": pi, "coq": "lower_ref head_cfg %s %s" % (coq_scope(p, fr2), coq_ident(([], n))),
-                              "site": sk, "name": n, "what": "dup-select", "frame": fr2.describe()})
+                              "site": sk, "name": n, "what": "dup-select", "frame": fr2.describe(),
+                              # the tuple `{xi.n, xj.n}` under the implemented un-naming rule and under the one that respects prefixes
+                              "coq2": "(let fs := [(Some %d%%nat, %s); (Some %d%%nat, %s)] in (dup_across fs, named %s (unname fs), named %s (unname_spec fs)))"
+                                      % (fr.inputs.index(a_), cs(n), fr.inputs.index(b_), cs(n), cs(n), cs(n))})
                 break
 
     # (a'') a column EXCLUDED from a wildcard input by `select !{c}`, referenced afterwards (C10-F6): the frame is not fully
@@ -533,7 +536,8 @@ def run():
             fr2 = c10_gen.Frame([c10_gen.Input(inp.name, [], True, inp.pool)])
             cases.append({"stream": "edit-a-dropped-column", "src": p.text(upto=k, extra=["select !{%s}" % c_, c10_gen.SITES[sk] % txt]),
                           "kind": "edit", "pi": pi, "coq": "lower_ref head_cfg %s %s" % (coq_scope(p, fr2), coq_ident(([inp.name] if qual else [], c_))),
-                          "site": sk, "name": txt, "what": "excluded-column", "frame": fr2.describe()})
+                          "site": sk, "name": txt, "what": "excluded-column", "frame": fr2.describe(),
+                          "coq2": "excluded_inference [(0%%nat, %s)] %s %s" % (cs(c_), coq_scope(p, fr2), coq_ident(([inp.name] if qual else [], c_)))})
 
     # (f) a module or relation name where a value is required (repair a131b2a; was C10-F1), and the bare name `that`
     #     outside a join condition (C10-F2).  At any frame (a name that denotes a declaration is never inferred as a column).
@@ -638,6 +642,13 @@ def run():
         model_ok = all(v is not None for v in vals)
     except RuntimeError as ex:
         ck.coverage["model_eval_error"] = str(ex)[-600:]
+    with2 = [c for c in cases if c.get("coq2")]
+    try:
+        vals2 = coq_eval(HEADER, ["(%s)" % c["coq2"] for c in with2])
+        for c, v in zip(with2, vals2):
+            c["model2"] = v
+    except RuntimeError as ex:
+        ck.coverage["model2_eval_error"] = str(ex)[-600:]
     ck.coverage["model_evaluated"] = model_ok
 
     # ------------------------------------------------------------------ implementation
@@ -677,20 +688,15 @@ def run():
         # (C10-F2, the bare `that`, is fixed by 006e33c: nothing is classified here any more)
         if case.get("impl") != "ok":
             return None
-        # C10-F4: the relation argument is a CALL of a std function (a scalar); it compiles to `FROM ABS(3)`
-        # (the faithful model -- seen head_cfg SStdCall = ARel without the repair -- says Applied)
-        if case.get("what") == "std-call" and str(case.get("site", "")).endswith(":std-call") and str(case.get("model")) == "Applied" and not (cfg and cfg["std_call_rejected"]):
-            return F4
+        # (C10-F4, std operator calls as relations, is fixed by 830df3c; C10-F7, dead case branches, by 3056744: not classified)
         # C10-F5: the step before the site is a select keeping `x.n, y.n`; the model still sees two candidates
-        if case.get("what") == "dup-select" and case.get("model_kind") == "OErr:EAmbiguous":
+        # ... exactly when Coq's dup_across holds of the tuple (Props/C10.v tuple_names_characterised): one field answers to the
+        # name under the implemented rule, two under the rule that respects relation prefixes
+        if case.get("what") == "dup-select" and case.get("model_kind") == "OErr:EAmbiguous" and case.get("model2") == (True, 1, 2):
             return F5
-        # C10-F7: a module / relation name / `that` as the value of a case branch that static evaluation removes: the a131b2a /
-        # 006e33c tests sit in lower_expr, which never sees the branch
-        if case.get("stream") in ("edit-f-module-or-relation-as-value", "edit-a-dropped-column") and case.get("site") in c10_gen.DEAD_SITES and case.get("model_kind") == "ODropped" \
-                and not (cfg and cfg["dead_case_checked"]):
-            return F7
         # C10-F6: the name was excluded by the immediately preceding `select !{..}` from a wildcard input; the (faithful) model infers it
-        if case.get("what") == "excluded-column" and case.get("model_kind") == "OInferredColumn":
+        # ... exactly when Coq's excluded_inference holds (Props/C10.v excluded_column_characterised)
+        if case.get("what") == "excluded-column" and case.get("model_kind") == "OInferredColumn" and case.get("model2") is True:
             return F6
         return None
 
@@ -706,7 +712,7 @@ def run():
         key = c["src"]
         a = c["answer"]
         rep = {"program": c["src"], "stream": st, "impl": c["impl"], "site": c.get("site"), "name": c.get("name"), "frame": c.get("frame"),
-               "interp": c.get("interp"), "what": c.get("what")}
+               "interp": c.get("interp"), "what": c.get("what"), "model2": c.get("model2")}
         if c["kind"] == "base":
             ck.count(st, key)
             ck.stat(st, "base:" + c["impl"])
